@@ -67,8 +67,9 @@ def calibrate(pid, repo):
         'what': 'seeded breaking changes and benign variants applied to a scratch copy of the current sources and analysed with the same rules (no execution)',
         'seeded_applicable': len(seeds), 'seeded_reported': sum(1 for r in seeds if r['result'] == 'reported'),
         'benign_applicable': len(ben), 'benign_silent': sum(1 for r in ben if r['result'] == 'silent'),
+        'benign_undecided': sum(1 for r in ben if r['result'] == 'analysis-broken'), 'benign_false_alarm': sum(1 for r in ben if r['result'] == 'reported'),
         'skipped': [r['case'] for r in rows if r['result'] == 'skipped'],
-        'unexpected': [r for r in rows if r['result'] != 'skipped' and r['result'] != r['expect']],
+        'unexpected': [r for r in rows if r['result'] != 'skipped' and r['result'] != r['expect'] and not (r['expect'] == 'silent' and r['result'] == 'analysis-broken')],
         'cases': rows,
     }
     return summary
